@@ -234,8 +234,8 @@ C11_AfterSync(newc, nf, k) ==
     (IF ~LinksSynced(k) THEN <<<<"C11", "successful-sync-left-link-differences", <<k.lk, k.clk>>>>>> ELSE <<>>) \o
     (IF ~DirsSynced(k) THEN <<<<"C11", "successful-sync-left-empty-dir-differences", <<k.dr, k.cdr>>>>>> ELSE <<>>) \o
     (IF ParityInvalid(newc) THEN <<<<"C11", "successful-sync-left-unsynced-blocks", <<>>>>>> ELSE <<>>)
-C11_Diff(c, f, k, o) ==
-    LET differs == ~NoDifference(c, f) \/ ~LinksSynced(k) \/ ParityInvalid(c)
+C11_Diff(c, f, k, o, inochange) ==
+    LET differs == ~NoDifference(c, f) \/ ~LinksSynced(k) \/ ParityInvalid(c) \/ inochange
     IN IF differs /\ o.rc # 2 THEN <<<<"C11", "diff-misses-a-difference", o>>>>
        ELSE IF ~differs /\ o.rc # 0 THEN <<<<"C11", "diff-reports-without-difference", o>>>> ELSE <<>>
 C11_List(c, k, o) ==
@@ -302,7 +302,8 @@ SyncStep ==
     /\ IsEvent("Sync")
     /\ LET a == Ev.args
            fs1 == IF "fs1" \in DOMAIN Ev THEN Ev.fs1 ELSE fs
-           r == SyncResult(C, fs, fs1, par, a.now, [links |-> LinkCounts(lks), reduced |-> Reduced] @@ a.opts, SrcsOf(a))
+           r == SyncResult(C, fs, fs1, par, a.now, [links |-> LinkCounts(lks), reduced |-> Reduced,
+                                                     trusted |-> IF "trusted" \in DOMAIN a THEN ToSet(a.trusted) ELSE {}] @@ a.opts, SrcsOf(a))
            okC == r.C = LoggedC(Ev.state)
            okP == ParAgrees(r.par, Ev.state)
            okO == IF r.out.exit \in {"refused", "abort", "prehash-stop"} THEN Ev.out.exit = "stopped"
@@ -334,7 +335,17 @@ SyncStep ==
                       \* C19: a block is recorded as synced only with the hash of the data that was read; with pre-hash a
                       \* mismatch stops the sync before any parity is written
                       (IF ~dmg /\ "fs1" \notin DOMAIN Ev /\ Ev.out.exit = "ok" /\ fullsync /\ C19_Wrong(newc, Ev.state.fs) # {}
-                       THEN <<<<"C19", "synced-block-hash-is-not-the-hash-of-the-data", C19_Wrong(newc, Ev.state.fs)>>>> ELSE <<>>) \o
+                       THEN <<<<"C19",
+                               \* finding F13: on a disk whose inode numbers are trusted, a file that has the path, size and time stamp of a
+                               \* recorded file but ANOTHER inode number is taken as "restored" and keeps the hashes without being read
+                               IF \A y \in C19_Wrong(newc, Ev.state.fs) :
+                                      LET d == y[1][1]
+                                          n == y[1][2]
+                                      IN /\ n \in DOMAIN C.cf[d] /\ "ino" \in DOMAIN C.cf[d][n] /\ n \in DOMAIN fs[d]
+                                         /\ "trusted" \in DOMAIN a /\ d \in ToSet(a.trusted)
+                                         /\ C.cf[d][n].ino # fs[d][n].ino /\ SameStamp(C.cf[d][n], fs[d][n])
+                               THEN "F13-same-path-size-stamp-other-inode-taken-as-restored"
+                               ELSE "synced-block-hash-is-not-the-hash-of-the-data", C19_Wrong(newc, Ev.state.fs)>>>> ELSE <<>>) \o
                       (IF r.out.exit = "prehash-stop" /\ ~SamePar(Ev.state.sha.p, sha.p)
                        THEN <<<<"C19", "prehash-mismatch-but-parity-written", <<>>>>>> ELSE <<>>) \o
                       (IF Ev.out.exit = "ok" /\ fullsync /\ "fs1" \notin DOMAIN Ev
@@ -547,12 +558,13 @@ ScrubStep ==
 
 DiffStep ==
     /\ IsEvent("Diff")
-    /\ LET r0 == DiffResult(C, fs, <<>>)
+    /\ LET tr == IF "trusted" \in DOMAIN Ev.args THEN ToSet(Ev.args.trusted) ELSE {}
+           r0 == DiffResultI(C, fs, tr)
            r == [exit |-> IF r0.exit = "equal" /\ LinksSynced(lks) THEN "equal" ELSE "diff"]
            okS == LoggedC(Ev.state) = C /\ Ev.state.fs = fs /\ ParAgrees(par, Ev.state)
        IN /\ Follow(Ev.state, par)
           /\ diag' = IF r.exit = Ev.out.exit /\ okS THEN <<>> ELSE <<"Diff", l, r, okS>>
-          /\ pviol' = C12_Frame("Diff", Ev.state) \o C11_Diff(C, fs, lks, Ev.out)
+          /\ pviol' = C12_Frame("Diff", Ev.state) \o C11_Diff(InoRename(C, fs, tr), fs, lks, Ev.out, InoDifferences(C, fs, tr))
           /\ UNCHANGED <<clean, snap, dmg, ghost, afterfix>>
 
 (* touch (touch.c): every recorded file whose recorded sub-second stamp is zero and which can be opened gets a random
